@@ -9,6 +9,8 @@
 // end up in (DESIGN §7 C02-2/4). Built with the real NewTopology / AddRequirements / Record.
 //
 // verif:assume C02: two pods placed in either order onto nodes whose zone requirement is a non-empty subset of two zones; one NodePool with one instance type offering both zones; no pods already running; namespaces: default only
+// verif:nondeterministic the scheduler breaks ties between equally good domains, NodeClaims and instance types by Go map iteration order; a native run may take another admissible behaviour than the symbolic path
+// verif:assume sample comparison against the real build is restricted to the verdict for these harnesses: the real code breaks ties by randomised map iteration order, the engine iterates in insertion order; violations are always confirmed natively
 
 package scheduling
 
